@@ -57,21 +57,21 @@ _CODEC_NOTE = ("Trusted: Lean kernel; the hand-written codec model (Model/VarInt
 PROPS["C01"] = dict(
     level="proof",
     technique="Lean 4 theorems: `Sound enc dec` for every consensus decoder by combinator lemmas + case analysis of the Transaction/RingCT dispatch (decoder and encoder are separately modelled); differential correspondence on structured + malformed byte strings",
-    level_text="C01_sound_* prove for every byte string b, every version, all seven RingCT types and every count that `dec b = some (x, rest)` implies `b = enc x ++ rest`, for VarInt, fixed-width records, capped vectors, TxIn, TxOut targets, prefix, ecdh, Bulletproof(+), MLSAG/CLSAG, RctSigBase(i,o), RctSigPrunable(type,i,o,m), Transaction, BlockHeader and Block; injectivity and 'identifiers commit to the received bytes' are corollaries. The model's decoders/encoders mirror the Rust ones and agree with them on ~58k (quick) structured, mutated, truncated and tag-swept inputs; the real code is additionally checked directly (serialize(parse b) == b[..n]).",
+    level_text="C01_sound_* prove for every byte string b, every version, all seven RingCT types and every count that `dec b = some (x, rest)` implies `b = enc x ++ rest`, for VarInt, fixed-width records, capped vectors, TxIn, TxOut targets, prefix, ecdh, Bulletproof(+), MLSAG/CLSAG, RctSigBase(i,o), RctSigPrunable(type,i,o,m), Transaction, BlockHeader and Block; injectivity (C01_injective_tx/block/header/prefix/…) is a corollary; C01_txid_commits proves that equal transaction identifiers of two strictly parsed transactions (same version class) mean equal received bytes or a collision of the hash; C01_model_tags_are_source ties the model's tag / type literals to the tag tables regenerated from the source. The model's decoders/encoders mirror the Rust ones and agree with them on ~68k (quick) structured, mutated, truncated, tag-swept, count-perturbed (±1 with bytes appended) and strictly parsed inputs; the real code is additionally checked directly (serialize(parse b) == b[..n]).",
     level_note=_CODEC_NOTE,
     design_ref="DESIGN.md §6 C01",
-    rule="40% valid encodings from the type-directed generator, 60% malformed stream (9 mutation kinds, 256-value sweeps at leading byte positions, truncation at every position, declared lengths around the cap).",
-    assumptions=["model/Rust correspondence of the codec is differential", "String and bool codecs are not reachable from Block/Transaction and are not modelled"],
+    rule="40% valid encodings from the type-directed generator, 60% malformed stream (9 mutation kinds, 256-value sweeps at leading byte positions and at every input tag / target tag / RingCT type byte, every count byte and every byte of small records moved by ±1 with 100 random bytes appended, unusual versions, truncation at every position, declared lengths around the cap).",
+    assumptions=["model/Rust correspondence of the codec is differential", "the bool codec is not reachable from Block/Transaction and is lenient (any non-zero byte is true: C01_bool_not_sound); it is modelled and compared, but excluded from the intrinsic oracle"],
     gen_items=["CAP", "codec."],
 )
 
 PROPS["C02"] = dict(
     level="proof",
     technique="Lean 4 theorems: `Complete wf enc dec` on explicit decidable well-formedness predicates, separately modelled length accounting proved equal to bytes written, strictness lemmas; round-trip / length / strictness oracles on generated values",
-    level_text="C02_complete_* prove `dec (enc x ++ r) = some (x, r)` for every well-formed x (wfTx/wfBlock: implicit vectors have the implied lengths, numbers are u64, keys 32 bytes, explicit vectors within the cap, one-byte BulletproofPlus count < 256) and every continuation r; C02_len_* prove that the byte count each encoder reports (a separately written fold mirroring `len += ...`) equals the bytes written for every value; C02_strict / C02_strict_iff_partial / C02_partial_count give the strict/partial clauses. The real code is checked on generated values of all shapes (round trip, reported length, strict rejection of suffixes) and against the model.",
+    level_text="C02_complete_* prove `dec (enc x ++ r) = some (x, r)` for every well-formed x (wfTx/wfBlock: implicit vectors have the implied lengths, numbers are u64, keys 32 bytes, explicit vectors within the cap, one-byte BulletproofPlus count < 256) and every continuation r; C02_len_* prove that the byte count each encoder reports (a separately written fold mirroring `len += ...`) equals the bytes written for every value; C02_strict / C02_strict_iff_partial / C02_partial_count give the strict/partial clauses; C02_decoded_wf_* / C02_wf_iff_roundtrip_* prove that the well-formedness predicates are exactly 'is the parse of some byte string' (the hypotheses are the weakest possible), C02_wf_inhabited that they are satisfiable on every dispatch path; C02_complete_uint / _int / _bytes / _bool / _rcttype cover the primitives. The real code is checked on generated values of all shapes (round trip, reported length, strict rejection of suffixes) and against the model.",
     level_note=_CODEC_NOTE + " Known finding: BulletproofPlus counts > 255 do not round-trip (recorded, DESIGN.md §7 item 4).",
     design_ref="DESIGN.md §6 C02, Appendix B",
-    rule="type-directed values: both versions, all 7 RingCT types, rings 1..40 (a few with thousands of members), 0..18 outputs (a few with thousands), long extras, blocks with 0..thousands of hashes; primitives at every varint width boundary.",
+    rule="type-directed values: both versions, all 7 RingCT types, rings 1..40 (a few with thousands of members), 0..18 outputs (a few with thousands), long extras, blocks with 0..thousands of hashes; primitives at every varint width boundary; empty rings, mixed inputs, unusual versions, 127..129 inputs, 255..257 proofs, fixed-width integers, boxed slices; vectors of exactly cap/size and cap/size+1 real elements.",
     assumptions=["WF includes the decoder's allocation cap (C04 requires it)", "Padding sub-fields are C16's subject (not prefix-free by design)"],
     gen_items=["CAP"],
 )
